@@ -256,6 +256,9 @@ pub struct Opt {
     #[serde(default)] pub exclude: Option<IncExc>,
     /// terms: order by a metric sub-aggregation (name, property, ascending); overrides `order`
     #[serde(default)] pub sub_order: Option<(String, String, bool)>,
+    /// extended_stats: `sigma` in quarters (std_deviation_bounds = mean ± sigma * std_deviation;
+    /// the default is 2)
+    #[serde(default)] pub sigma4: Option<i64>,
 }
 
 #[derive(Clone, PartialEq, Debug, Serialize, Deserialize)]
@@ -297,6 +300,7 @@ pub fn nodes_to_json(nodes: &[Node]) -> Value {
                     p.insert("field".into(), json!(field.name()));
                     if let Some(mv) = missing { p.insert("missing".into(), real_num(*field, *mv)); }
                     if *kind == MK::Percentiles && !n.opt.keyed { p.insert("keyed".into(), json!(false)); }
+                    if *kind == MK::ExtStats { if let Some(s4) = n.opt.sigma4 { p.insert("sigma".into(), json!(s4 as f64 / 4.0)); } }
                 }
                 o.insert(name.into(), Value::Object(p));
             }
@@ -451,7 +455,7 @@ pub fn nodes_to_lean(nodes: &[Node], counts_only: bool, ranks: &Ranks) -> String
 // generators
 // ------------------------------------------------------------------------------------------
 
-pub struct Profile { pub n: usize, pub kw_card: usize, pub multi: u64, pub missing: u64, pub deleted: usize }
+pub struct Profile { pub n: usize, pub kw_card: usize, pub multi: u64, pub missing: u64, pub deleted: usize, pub near_unique: bool }
 
 pub fn gen_corpus(rng: &mut Rng) -> (Vec<MDoc>, Profile) {
     let n = match rng.below(10) { 0 => 0, 1 => 1, 2 => 2, 3 | 4 => 5 + rng.usize_below(10), 5 | 6 | 7 => 20 + rng.usize_below(40), 8 => 128 + rng.usize_below(3), _ => 250 + rng.usize_below(100) };
@@ -460,6 +464,10 @@ pub fn gen_corpus(rng: &mut Rng) -> (Vec<MDoc>, Profile) {
     let missing = *rng.pick(&[0u64, 1, 3, 7]);    // of 10: probability that a field is absent
     let base_ms: i64 = 1_600_000_000_000;
     let nip = ip_universe().len() as u64;
+    // near-unique terms: almost every document has its own u / kw / js.n value, a few values occur
+    // twice or three times (fewer than 2 documents per distinct term on average)
+    let near_unique = n >= 5 && rng.chance(1, 4);
+    let (multi, missing) = if near_unique { (0, *rng.pick(&[0u64, 1])) } else { (multi, missing) };
     let mut docs = vec![];
     for idx in 0..n {
         let mut d: MDoc = vec![vec![]; NF];
@@ -469,7 +477,11 @@ pub fn gen_corpus(rng: &mut Rng) -> (Vec<MDoc>, Profile) {
             if rng.chance(missing, 10) { continue; }
             let k = if rng.chance(multi, 10) { 2 + rng.usize_below(3) } else { 1 };
             for _ in 0..k {
+                let dupl = |rng: &mut Rng, idx: usize| -> i64 { if idx > 0 && rng.chance(1, 5) { rng.usize_below(idx) as i64 } else { idx as i64 } };
                 let v: i64 = match f {
+                    Fd::U if near_unique => dupl(&mut rng_clone(rng), idx),
+                    Fd::JsN if near_unique => dupl(&mut rng_clone(rng), idx) - 20,
+                    Fd::Kw if near_unique => kw_code(dupl(&mut rng_clone(rng), idx) as usize % 204),
                     Fd::U => match rng.below(4) { 0 => rng.below(5) as i64 * 10, 1 => rng.below(41) as i64, 2 => 9 + rng.below(3) as i64, _ => rng.below(200) as i64 },
                     Fd::I => match rng.below(3) { 0 => (rng.below(9) as i64 - 4) * 10, 1 => rng.below(61) as i64 - 30, _ => -(rng.below(3) as i64) - 9 },
                     Fd::Fl => rng.below(81) as i64 - 40,                       // quarters: -10.0 ..= 10.0
@@ -492,8 +504,13 @@ pub fn gen_corpus(rng: &mut Rng) -> (Vec<MDoc>, Profile) {
         let p = *rng.pick(&[1u64, 3, 5]);
         for d in docs.iter_mut() { if rng.chance(p, 10) { d[Fd::Sel.id()].push(DELETED); deleted += 1; } }
     }
-    (docs, Profile { n, kw_card, multi, missing, deleted })
+    (docs, Profile { n, kw_card, multi, missing, deleted, near_unique })
 }
+
+/// an independent stream derived from the generator state (advances `rng` once)
+fn rng_clone(rng: &mut Rng) -> Rng { rng.fork() }
+
+pub fn kw_code_pub(i: usize) -> i64 { kw_code(i) }
 
 /// i-th usable keyword (skips the reserved missing key)
 fn kw_code(i: usize) -> i64 {
@@ -522,10 +539,10 @@ fn gen_bucket(rng: &mut Rng, depth: usize) -> Agg {
     match rng.below(10) {
         0..=3 => {
             let field = *rng.pick(&[Fd::Kw, Fd::Kw, Fd::Cat, Fd::U, Fd::I, Fd::B, Fd::Ip, Fd::D, Fd::JsS, Fd::JsN, Fd::Fl]);
-            let size = match rng.below(4) { 0 => None, 1 => Some(1 + rng.below(3) as u32), 2 => Some(5), _ => Some(300) };
-            let seg = if depth == 0 && rng.chance(1, 5) { Some(1 + rng.below(6) as u32) } else { None };
+            let size = match rng.below(5) { 0 => None, 1 | 2 => Some(1 + rng.below(3) as u32), 3 => Some(5), _ => Some(300) };
+            let seg = if depth == 0 && rng.chance(1, 4) { Some(*rng.pick(&[1u32, 2, 3, 5, 8, 20])) } else { None };
             let mdc = match rng.below(5) { 0 => Some(2), 1 => Some(1), 2 if field.is_str() && depth == 0 => Some(0), _ => None };
-            let order = match rng.below(6) { 0 => None, 1 => Some(TOrd::CountDesc), 2 => Some(TOrd::CountAsc), 3 | 4 => Some(TOrd::KeyAsc), _ => Some(TOrd::KeyDesc) };
+            let order = match rng.below(7) { 0 => None, 1 => Some(TOrd::CountDesc), 2 | 3 => Some(TOrd::CountAsc), 4 | 5 => Some(TOrd::KeyAsc), _ => Some(TOrd::KeyDesc) };
             let missing = if rng.chance(1, 4) {
                 if field.is_str() { Some(missing_code(field)) }
                 else if matches!(field, Fd::U | Fd::JsN) { Some(rng.below(30) as i64) }
@@ -624,6 +641,7 @@ pub fn gen_nodes(rng: &mut Rng, depth: usize, max_depth: usize, counter: &mut us
         } else if depth + 1 == max_depth || rng.chance(7, 10) {
             let mut node = Node { name, agg: gen_metric(rng), subs: vec![], opt: Opt::default() };
             node.opt.keyed = rng.chance(2, 3);
+            if matches!(node.agg, Agg::Metric { kind: MK::ExtStats, .. }) && rng.chance(2, 3) { node.opt.sigma4 = Some(*rng.pick(&[0i64, 2, 4, 6, 12, 13])); }
             out.push(node);
         } else {
             let mut node = Node { name, agg: gen_bucket(rng, depth), subs: vec![], opt: Opt::default() };
